@@ -45,6 +45,6 @@ ASSUME Bug = "none" => ImplAgrees
 ASSUME \E a \in Stored : ~SelfValEq(a, FALSE)
 ASSUME \A a \in Plain : SelfValEq(a, FALSE)
 ASSUME PrintT(<< "laws checked over", Cardinality(Stored), "stored trees", Cardinality(UPairs), "pairs" >>)
-Init == objs = << >> /\ dict = << >> /\ last = 0 /\ cmemo = {}
-Next == UNCHANGED << objs, dict, last, cmemo >>
+Init == objs = << >> /\ dict = << >> /\ last = 0 /\ cmemo = {} /\ heap = Heap0
+Next == UNCHANGED << objs, dict, last, cmemo, heap >>
 =============================================================================
